@@ -130,7 +130,7 @@ def unwrap_future(ex, st, v):
             raise MirError('future unwrap loop')
         if isinstance(v, Ref):
             v = ex.read(st, v.loc); continue
-        if isinstance(v, Obj) and v.kind in ('coroutine', 'readyfut', 'thunk'):
+        if isinstance(v, Obj) and v.kind in ('coroutine', 'readyfut', 'thunk', 'joinall'):
             return v
         if isinstance(v, Obj) and v.kind in ('pin', 'box', 'instrumented'):
             v = v.fields[('in', 0)]; continue
@@ -197,6 +197,12 @@ def m_poll(ctx):
     fut = unwrap_future(ex, st, ctx.args[0])
     if fut.kind == 'readyfut':
         return [(None, ready(fut.fields[('val', 0)]))]
+    if fut.kind == 'joinall':
+        it = fut.attrs['it']
+        if not (isinstance(it, Obj) and it.kind == 'mapiter' and not it.attrs.get('filter') and not it.attrs.get('flat') and it.attrs['inner'].kind in ('iter', 'range')):
+            raise MirError(f'try_join_all over an unmodelled iterator {it!r}')
+        c = Cont('joinall', phase='make', pending=drain_iter(ex, st, it.attrs['inner']), futs=[], results=[], f=it.attrs['f'], dest=ctx.dest, nxt=ctx.nxt, ret_ty=ctx.ret_ty)
+        return _joinall_step(ex, st, c, ctx.work)
     if fut.kind == 'thunk':
         alts = fut.attrs['thunk'](ex, st, fut)
         def wrap(s2, v):
@@ -208,6 +214,56 @@ def m_poll(ctx):
     pin = Obj('Pin', kind='pin'); pin.fields[('in', 0)] = Ref(('field', holder, ('*', 0, '?'))); pin.fields[(None, 0)] = pin.fields[('in', 0)]
     ex.push(st, body, [pin, Obj('Context')], ctx.dest, ctx.nxt)
     return PUSHED
+
+
+@model(r'^(futures::future::|futures_util::future::|futures::)?try_join_all::<')
+def m_try_join_all(ctx):
+    o = Obj('TryJoinAll', kind='joinall'); o.attrs['it'] = ctx.ex.deref_val(ctx.st, ctx.args[0])
+    return [(None, o)]
+
+
+def _joinall_step(ex, st, c, work):
+    """try_join_all over `iter.map(|x| async move { .. })`: the futures are created in order and driven to completion one after the other (every awaited
+    sub-future completes in this engine, so the interleaving of the real combinator is immaterial); the first Err is the result"""
+    d = c.data
+    if d['phase'] == 'make':
+        if d['pending']:
+            x = d['pending'].pop(0)
+            ex.call_closure(st, d['f'], [x], d['dest'], d['nxt'], c)
+            return PUSHED
+        d['phase'] = 'poll'
+    if d['futs']:
+        fut = unwrap_future(ex, st, d['futs'].pop(0))
+        if fut.kind == 'readyfut':
+            return _joinall_result(ex, st, c, work, ready(fut.fields[('val', 0)]))
+        if fut.kind != 'coroutine':
+            raise MirError(f'try_join_all element is not an async block: {fut!r}')
+        body = ex.coroutine_body(fut)
+        holder = Obj('fut-holder', kind='cell'); holder.fields[('*', 0)] = fut
+        pin = Obj('Pin', kind='pin'); pin.fields[('in', 0)] = Ref(('field', holder, ('*', 0, '?'))); pin.fields[(None, 0)] = pin.fields[('in', 0)]
+        ex.push(st, body, [pin, Obj('Context')], d['dest'], d['nxt'], c)
+        return PUSHED
+    return [(None, ready(ok(new_vec('Vec', d['results']))))]
+
+
+def _joinall_result(ex, st, c, work, rv):
+    d = c.data
+    if not (isinstance(rv, Obj) and rv.discr == 'Ready'):
+        raise MirError('try_join_all element did not complete')
+    res = ex.deref_val(st, rv.fields[('Ready', 0)])
+    if not (isinstance(res, Obj) and res.discr in ('Ok', 'Err')):
+        raise MirError('try_join_all element with a symbolic Result variant')
+    if res.discr == 'Err':
+        return [(None, ready(res))]
+    d['results'].append(res.fields[('Ok', 0)])
+    return _joinall_step(ex, st, c, work)
+
+
+def _resume_joinall(ex, st, cont, rv, work):
+    if cont.data['phase'] == 'make':
+        cont.data['futs'].append(rv)
+        return 'model', _joinall_step(ex, st, cont, work)
+    return 'model', _joinall_result(ex, st, cont, work, rv)
 
 
 def ready_future(v):
@@ -790,6 +846,7 @@ def _resume_ordcmp(ex, st, cont, rv, work):
 
 
 RESUMERS['ordcmp'] = _resume_ordcmp
+RESUMERS['joinall'] = _resume_joinall
 RESUMERS['take'] = _resume_take
 RESUMERS['not'] = lambda ex, st, cont, rv, work: ('value', z3.Not(rv))
 
